@@ -235,7 +235,35 @@ func oracleC03(c *oracleCtx) {
 		}
 	}
 
+	// directed sources: escapes (in all three forms) that denote a quote, a backslash, a line terminator or a digit
+	// (needed by seeded/C03-m5), and literals as objects of member accesses
+	for _, src := range c03EscapeSources() {
+		c.count(src)
+		c03Parsed(c, src, c03Cfgs, true)
+	}
+
 	c03Witnesses(c)
+}
+
+func c03EscapeSources() []string {
+	bodies := []string{`\u0022`, `{\u0022a\u0022: 1}`, `C:\u005C`, `\u005Cu0041`, `\x22`, `\x5c`, `\x5Cn`, `\u{22}`, `\u{5C}`, `\u{5c}x41`,
+		`\u000A`, `\x0a`, `\u{a}`, `\u000D`, `\x0D`, `\u{D}`, `\0\u0037`, `\0\x37`, `\0\u{37}`, `a\u0027b`, `\x27`, `\u{27}`, `\u0030`, `\x39`,
+		`\u2028`, `\u{2029}`, `\uD83D\uDE00`, `\u{1F600}`, `\xe9`, `\u00e9`}
+	var out []string
+	for i := 0; i < len(bodies); i += 5 {
+		j := i + 5
+		if j > len(bodies) {
+			j = len(bodies)
+		}
+		src := ""
+		for k, b := range bodies[i:j] {
+			src += fmt.Sprintf("let d%d = \"%s\";\nlet s%d = '%s';\n", k, b, k, b)
+		}
+		out = append(out, src)
+	}
+	out = append(out, "let a = `x\\`y`;\nlet b = `\\\\`;\nlet c = 'p\"q';\nlet d = \"p'q\";\n",
+		"let n = 1 .toString();\nlet m = 0x1f.toString(2);\nlet k = 1.5.toFixed(1);\nlet j = [2 .valueOf()];\n")
+	return out
 }
 
 func c03Witnesses(c *oracleCtx) {
